@@ -39,16 +39,23 @@ def fn_options():
     return [(s, "file", f) for s in FN_SPECS for f in ("decl", "def")] + [(s, "block", "decl") for s in FN_SPECS]
 
 
-def render(kind, hist):
-    """Source text of a history for identifier `x` (object) or `f` (function)."""
+def render(kind, hist, label=False):
+    """Source text of a history for identifier `x` (object) or `f` (function).
+
+    label: the first file-scope declaration that can carry one gets an assembler label; every later declaration
+    (file or block scope) must inherit it."""
     out = []
     nblock = 0
     for spec, scope, form in hist:
         sp = spec + " " if spec else ""
+        lab = ""
+        if label and scope == "file" and (kind == "obj" or form == "decl"):
+            lab = ' __asm__("lab_x")'
+            label = False
         if kind == "obj":
-            d = "%sint x%s;" % (sp, " = 1" if form == "def" else "")
+            d = "%sint x%s%s;" % (sp, lab, " = 1" if form == "def" else "")
         else:
-            d = "%sint f(void)%s" % (sp, " { return 1; }" if form == "def" else ";")
+            d = "%sint f(void)%s%s" % (sp, lab, " { return 1; }" if form == "def" else ";")
         if scope == "block":
             nblock += 1
             out.append("void host%d(void) { %s }" % (nblock, d))
@@ -202,6 +209,8 @@ def hist_enum(ctx):
                 k += 1
                 if ctx.tier == "thorough" or n <= 1 or (k * 2654435761 + ctx.seed * 97) % 7 == 0:
                     yield {"kind": kind, "hist": [list(h) for h in hist]}
+                    if n >= 2 and hist[0][1] == "file" and (kind == "obj" or hist[0][2] == "decl") and any(h[1] == "block" for h in hist[1:]):
+                        yield {"kind": kind, "hist": [list(h) for h in hist], "label": True}
         if ctx.tier == "thorough":
             for hist in itertools.product(opts, repeat=4):
                 k += 1
@@ -212,8 +221,10 @@ def hist_enum(ctx):
 def hist_check(case, ctx):
     res = Result()
     hist = [tuple(h) for h in case["hist"]]
-    src = render(case["kind"], hist)
+    src = render(case["kind"], hist, case.get("label", False))
     ok = compare(ctx, src, res, "history")
+    if case.get("label"):
+        res.labels.append("asm-label-history" + ("-valid" if ok else ""))
     if ok and nontrivial(hist):
         res.keys.append(sha(src))
     if ok:
@@ -254,9 +265,32 @@ def units(draw):
                 lines.append("int %s[] = { 1, 2, 3 };" % nm)
             uses.append(nm + "[0]")
         elif k == "asm":
-            lab = draw(st.sampled_from(["plain_label", "with.dot", "x$y", "_under"]))
-            lines.append("int %s __asm__(\"%s%d\") = %d;" % (nm, lab, i, i))
-            uses.append(nm)
+            lab = draw(st.sampled_from(["plain_label", "with.dot", "x$y", "_under"])) + str(i)
+            form = draw(st.integers(0, 4))
+            if form == 0:
+                lines.append("int %s __asm__(\"%s\") = %d;" % (nm, lab, i))
+            elif form in (1, 2):
+                lines.append("extern int %s __asm__(\"%s\");" % (nm, lab))
+                if form == 2:
+                    lines.append("int %s = %d;" % (nm, i))
+            else:
+                lines.append("int %s(void) __asm__(\"%s\");" % (nm, lab))
+                if form == 4:
+                    lines.append("int %s(void) { return %d; }" % (nm, i))
+            isfn = form >= 3
+            # later declarations without the label (file or block scope, possibly nested) inherit it
+            for _ in range(draw(st.integers(0, 2))):
+                nhost[0] += 1
+                redecl = ("int %s(void);" if isfn else "extern int %s;") % nm
+                use_ = nm + ("()" if isfn else "")
+                where = draw(st.integers(0, 2))
+                if where == 0:
+                    lines.append(redecl)
+                elif where == 1:
+                    lines.append("int host%d(void) { %s return %s; }" % (nhost[0], redecl, use_))
+                else:
+                    lines.append("int host%d(int c) { if (c) { %s return %s; } return 0; }" % (nhost[0], redecl, use_))
+            uses.append(nm + ("()" if isfn else ""))
         elif k == "tls":
             lines.append("%s_Thread_local int %s%s;" % (draw(st.sampled_from(["", "static ", "extern "])), nm, draw(st.sampled_from(["", " = 5"]))))
             uses.append(nm)
